@@ -504,8 +504,8 @@ def gen_container_history(rng, nops: int, keys: List[str], p_bnd: float, feature
             mir.cp(s, d, move=True)
         elif r < 0.57:
             s, d = some_existing(), fresh()
-            if d[:len(s)] == s:
-                continue
+            if d[:len(s)] == s and rng.random() < 0.6:
+                continue                      # copies of a group into its own subtree: kept, but rare
             wm, wa = rng.random() < 0.35, rng.random() < 0.2
             # (plain h5py/HDF5 looks up an ABSOLUTE copy destination relative to the calling group:
             # g.copy("x", "/a/b") fails when g has a dataset "a"; the container wrapper issues
@@ -520,8 +520,8 @@ def gen_container_history(rng, nops: int, keys: List[str], p_bnd: float, feature
             dg = list(rng.choice(cands))
             name = rng.choice(keys) if rng.random() < 0.7 else ""
             d = dg + ([name] if name else s[-1:])
-            if d[:len(s)] == s:
-                continue
+            if d[:len(s)] == s and rng.random() < 0.6:
+                continue                      # (into the own subtree: kept, but rare)
             wm = rng.random() < 0.35
             dgs = absname(dg) if (dg == cwd or dg[:len(cwd)] != cwd or rng.random() < 0.5) else "/".join(dg[len(cwd):])
             op = ["copyinto", cwds, _spell(rng, cwd, s), dgs, name, wm, rng.random() < 0.4]
@@ -820,7 +820,7 @@ def gen_protocol_history(rng, nops: int, keys: List[str], attr_keys: List[str], 
     """Operations from ih5lib.gen_history interleaved with read requests on existing, missing
     and (optionally) below-dataset paths, and conditional requests."""
     base = ih5lib.gen_history(rng, nops, p_bnd=p_bnd, keys=keys, attr_keys=attr_keys, values=VALUES,
-                              allow_self_copy=False)
+                              allow_self_copy=(rng.random() < 0.3))
     sh = ih5lib.Shadow()
     items: List[list] = []
 
@@ -1090,7 +1090,9 @@ def run(ctx: vlib.Ctx):
     ctx.assumptions += [
         "keys from the IH5 alphabet (printable ASCII without '@' and '/'), '.' alone and names starting with 'metador_' excluded; "
         "paths in canonical spelling (no '.', '..' resolution, no empty segments)",
-        "no links, the IH5 deletion-marker value is not used as data, no copy/move into the source's own subtree",
+        "no links, the IH5 deletion-marker value is not used as data, no MOVE into the source's own subtree (copies of a group "
+        "into its own subtree are part of the histories); at the raw protocol level an absolute copy destination is only used "
+        "from the root group (plain HDF5 looks it up relative to the calling group: behaviour of the reference itself)",
         "in-place edits of dataset contents (ds[...] = v) are not part of the histories: IH5 documents copy_into_patch for them",
         "one providing package per schema in the environment; harness schemas are registered in the live plugin group",
     ]
